@@ -15,8 +15,8 @@ import (
 )
 
 func init() {
-	props["C15"] = &propDef{run: runC15, explanation: "Partial (structural agreement of signer and verifier; not the cryptography). Decided statically: (X1) the signer's curve→hash table and the verifier's curve-name→(curve, coordinate width, hash) table agree row by row, every width equals ⌈bit size/8⌉ of the curve named in the same row (specification table P-256:256, P-384:384, P-521:521, secp256k1:256), and the signer pads r and s to ⌈BitSize/8⌉ computed from the key's own curve; (X2) one signingInput function produces the signing input for both signing and verification from (headers, payload); compact serialisation and parsing use the single encoding base64.RawURLEncoding, the separator '.', and exactly three parts; (G1) the verifier slices the signature only behind len(sig) == 2·width, tests the boolean results of ecdsa.Verify / ed25519.Verify, guards the Ed25519 key size, rejects empty signature / payload segments, and SignPayload refuses a signer without an alg header. Not decided: 'verifies iff produced by the matching key over the same bytes' (cryptography,  go-jose key decoding). (K2) JOSE headers on the parse / verify paths are decoded with the go-jose decoder, which refuses duplicate member names (read from the library source): the verified signing input is rebuilt from the parsed header, so anything the decoder drops would be unsigned header content. The C16 rules (JWK coordinate width, padding helpers, strict reading) run inside this check as well. SerializeCompact writes each segment as the unpadded base64url text of its part. A supplied detached payload is the payload on every accepting path; NewJWS stores header maps made for that JWS; the compact form is three dot-separated segments however assembled. NewJWS hands sign the JOSE headers it stores; ed25519.Verify receives the whole signature parameter. VerifySignature accepts only behind Verify; the signer emits ecdsa.Sign's r and s as returned; Signature() returns a copy. The signing input is checked in concatenation form per alternative. The compact text is handed on as given. Closed sets of refusals for VerifyJWS and the header check."}
-	props["C16"] = &propDef{run: runC16, explanation: "Partial (thin). Decided statically: (K1) secp256k1 JWK marshalling pads X and Y (public and private form) through one padding helper with the constant 32 = ⌈256/8⌉, and the helper left-pads to exactly the requested length; (G1) unmarshalling a secp256k1 JWK succeeds only with X and Y present, each of length curveSize(S256) and the point on the curve (IsOnCurve true edge); curveSize is ⌈BitSize/8⌉; (T1) GetPublicKeyJWK's type switch admits exactly ed25519.PublicKey, *rsa.PublicKey and *ecdsa.PublicKey, marks a key as (EC, secp256k1) exactly when its curve is btcec.S256(), and rejects other types; isSecp256k1 compares both kty and crv. Not decided: the NIST and Ed25519 encodings (delegated to go-jose) and round-trip equality. (G2) closed rejection set of the secp256k1 reader: it says no only for a missing coordinate, a coordinate / private value of the wrong width, or a point off the curve (conditions inside helper predicates are followed). (K2) every (*big.Int).Bytes() flows only into a right-aligning sink; (G3) byteBuffer.data is exactly the base64url decoder's result. (*JWK).UnmarshalJSON stores the decoded key-type and curve labels before every accepting exit. The secp256k1 encoder writes the registered key-type and curve names; key conversion functions keep no state between calls. EC keys are built only in the checked reader's call tree; every decode into go-jose's JSONWebKey sits inside the strict reader; jws.JWK.Validate has the closed set of refusals; C15.X1's curve tables run here. JWK copies are member for member; C19.N on the JWK reader's functions. JWK texts for the strict reader are written by the JSON encoder; the receiver of UnmarshalJSON is untouched on failure. jwsutil writes through no jws.JWK it is handed; the secp256k1 encoder is chosen on the labels alone."}
+	props["C15"] = &propDef{run: runC15, explanation: "Partial (structural agreement of signer and verifier; not the cryptography). Decided statically: (X1) the signer's curve→hash table and the verifier's curve-name→(curve, coordinate width, hash) table agree row by row, every width equals ⌈bit size/8⌉ of the curve named in the same row (specification table P-256:256, P-384:384, P-521:521, secp256k1:256), and the signer pads r and s to ⌈BitSize/8⌉ computed from the key's own curve; (X2) one signingInput function produces the signing input for both signing and verification from (headers, payload); compact serialisation and parsing use the single encoding base64.RawURLEncoding, the separator '.', and exactly three parts; (G1) the verifier slices the signature only behind len(sig) == 2·width, tests the boolean results of ecdsa.Verify / ed25519.Verify, guards the Ed25519 key size, rejects empty signature / payload segments, and SignPayload refuses a signer without an alg header. Not decided: 'verifies iff produced by the matching key over the same bytes' (cryptography,  go-jose key decoding). (K2) JOSE headers on the parse / verify paths are decoded with the go-jose decoder, which refuses duplicate member names (read from the library source): the verified signing input is rebuilt from the parsed header, so anything the decoder drops would be unsigned header content. The C16 rules (JWK coordinate width, padding helpers, strict reading) run inside this check as well. SerializeCompact writes each segment as the unpadded base64url text of its part. A supplied detached payload is the payload on every accepting path; NewJWS stores header maps made for that JWS; the compact form is three dot-separated segments however assembled. NewJWS hands sign the JOSE headers it stores; ed25519.Verify receives the whole signature parameter. VerifySignature accepts only behind Verify; the signer emits ecdsa.Sign's r and s as returned; Signature() returns a copy. The signing input is checked in concatenation form per alternative. The compact text is handed on as given. Closed sets of refusals for VerifyJWS and the header check. The compact parser is handed texts as given only (no other serialization is read as a JWS)."}
+	props["C16"] = &propDef{run: runC16, explanation: "Partial (thin). Decided statically: (K1) secp256k1 JWK marshalling pads X and Y (public and private form) through one padding helper with the constant 32 = ⌈256/8⌉, and the helper left-pads to exactly the requested length; (G1) unmarshalling a secp256k1 JWK succeeds only with X and Y present, each of length curveSize(S256) and the point on the curve (IsOnCurve true edge); curveSize is ⌈BitSize/8⌉; (T1) GetPublicKeyJWK's type switch admits exactly ed25519.PublicKey, *rsa.PublicKey and *ecdsa.PublicKey, marks a key as (EC, secp256k1) exactly when its curve is btcec.S256(), and rejects other types; isSecp256k1 compares both kty and crv. Not decided: the NIST and Ed25519 encodings (delegated to go-jose) and round-trip equality. (G2) closed rejection set of the secp256k1 reader: it says no only for a missing coordinate, a coordinate / private value of the wrong width, or a point off the curve (conditions inside helper predicates are followed). (K2) every (*big.Int).Bytes() flows only into a right-aligning sink; (G3) byteBuffer.data is exactly the base64url decoder's result. (*JWK).UnmarshalJSON stores the decoded key-type and curve labels before every accepting exit. The secp256k1 encoder writes the registered key-type and curve names; key conversion functions keep no state between calls. EC keys are built only in the checked reader's call tree; every decode into go-jose's JSONWebKey sits inside the strict reader; jws.JWK.Validate has the closed set of refusals; C15.X1's curve tables run here. JWK copies are member for member; C19.N on the JWK reader's functions. JWK texts for the strict reader are written by the JSON encoder; the receiver of UnmarshalJSON is untouched on failure. jwsutil writes through no jws.JWK it is handed; the secp256k1 encoder is chosen on the labels alone. The readers of a byteBuffer take data as it is; the length of a big integer's minimal form is compared for 'too wide' only; keys are marshalled for the strict reader as they were handed."}
 }
 
 var curveBits = map[string]int{"crypto/elliptic.P256()": 256, "crypto/elliptic.P384()": 384, "crypto/elliptic.P521()": 521, "github.com/btcsuite/btcd/btcec/v2.S256()": 256}
@@ -41,10 +41,41 @@ func runC15(c *Ctx) {
 				callers = append(callers, f.Name())
 			}
 		}
+		// (an unexported helper called by exactly one of the two stands for it)
+		for i, cn := range callers {
+			if cn == "VerifyJWS" || cn == "sign" {
+				continue
+			}
+			var h *ssa.Function
+			for _, f := range c.Funcs {
+				if f.Name() == cn && len(callsTo(f, si)) > 0 {
+					h = f
+				}
+			}
+			if h == nil || h.Object() == nil || h.Object().Exported() {
+				continue
+			}
+			var by []string
+			for _, f := range c.Funcs {
+				if len(callsTo(f, h)) > 0 {
+					by = append(by, f.Name())
+				}
+			}
+			sort.Strings(by)
+			if len(uniqStrs(by)) == 1 && (by[0] == "VerifyJWS" || by[0] == "sign") {
+				callers[i] = by[0]
+			}
+		}
 		sort.Strings(callers)
+		callers = uniqStrs(callers)
 		c.Check("C15.X2", "signingInput:callers", eqStrs(callers, []string{"VerifyJWS", "sign"}), si.Pos(), fmt.Sprintf("signingInput is called by %v (expected exactly sign and VerifyJWS)", callers))
 		for _, cl := range callsTo(signFn, si) {
-			c.Check("C15.X2", "sign:input", sliceHas(backSlice(cl.Call.Args[0]), isParam(signFn, 0)) && sliceHas(backSlice(cl.Call.Args[1]), isParam(signFn, 1)), cl.Pos(), "sign builds the input from (joseHeaders, payload)")
+			okIn := sliceHas(backSlice(cl.Call.Args[0]), isParam(signFn, 0)) && sliceHas(backSlice(cl.Call.Args[1]), isParam(signFn, 1))
+			if signFn.Signature.Recv() != nil {
+				// (sign as a method of the JWS: the input is built from the receiver's JOSE headers and payload)
+				okIn = c.Path(cl.Call.Args[0], nil) == "$0.joseHeaders" && c.Path(cl.Call.Args[1], nil) == "$0.Payload"
+			}
+			c.Check("C15.X2", "sign:input", okIn, cl.Pos(), "sign builds the input from (joseHeaders, payload)")
 			// and signs exactly that
 			okS := false
 			for _, s2 := range callsNamed(signFn, "Sign") {
@@ -150,11 +181,19 @@ func runC15(c *Ctx) {
 		} else {
 			var extra []string
 			callRe := regexp.MustCompile(`^\((?:\(\*?)?jwsutil\.([A-Za-z0-9_]+)\)?\(`)
+			methRe := regexp.MustCompile(`^\(\(\*?jwsutil\.([A-Za-z0-9_]+)\)\.([A-Za-z0-9_]+)\(`)
 			var walk func(f *ssa.Function, d int)
 			walk = func(f *ssa.Function, d int) {
 				for _, r := range c.rejectionReasons(f, nil, false, 3) {
 					m := callRe.FindStringSubmatch(r)
 					if m == nil {
+						// an unexported method of the package's own types on the way
+						if mm := methRe.FindStringSubmatch(r); mm != nil && d < 2 {
+							if h := c.Method("jwsutil", mm[1], mm[2]); h != nil && h.Object() != nil && !h.Object().Exported() {
+								walk(h, d+1)
+								continue
+							}
+						}
 						extra = append(extra, short(f.String())+": "+r)
 						continue
 					}
@@ -206,6 +245,18 @@ func runC15(c *Ctx) {
 					}
 				}
 			}
+			// … and nothing else is read as a JWS: whoever calls the compact parser hands it a text it was itself handed
+			// (a compact form put together from the members of another serialization admits unsigned, unprotected members)
+			var made []string
+			for _, g := range c.Funcs {
+				for _, cl := range callsTo(g, pcf) {
+					if _, isP := cl.Call.Args[0].(*ssa.Parameter); !isP {
+						made = append(made, fmt.Sprintf("%s: %s hands parseCompacted %s", c.pos(cl.Pos()), short(g.String()), c.Path(cl.Call.Args[0], nil)))
+					}
+				}
+			}
+			sort.Strings(made)
+			c.Check("C15.X2", "compact-text:the-only-form-read", len(made) == 0, pj.Pos(), "the compact parser is handed texts as given only", made...)
 			c.Check("C15.X2", "compact-text:handed-on-as-given", n >= 2 && okA, pj.Pos(), fmt.Sprintf("ParseJWS -> parseCompacted and VerifyJWS -> ParseJWS receive the caller's text itself (%d call(s))", n))
 		}
 	}
@@ -344,12 +395,13 @@ func runC15(c *Ctx) {
 		}
 		// what is signed is what SerializeCompact will write: the headers handed to sign are the stored JOSE headers
 		{
-			var jose ssa.Value
+			var jose, made ssa.Value
 			if jt := c.NamedType("jwsutil", "JSONWebSignature"); jt != nil {
 				for _, a := range allocsOf(nj, jt) {
 					for _, fs := range storesInto(a) {
 						if fs.Field == "joseHeaders" {
 							jose = fs.Val
+							made = a
 						}
 					}
 				}
@@ -358,6 +410,13 @@ func runC15(c *Ctx) {
 			if signFn := c.Fn("jwsutil", "sign"); signFn != nil && jose != nil {
 				for _, cl := range callsTo(nj, signFn) {
 					nS++
+					if signFn.Signature.Recv() != nil {
+						// (sign as a method: called on the JWS that holds those headers)
+						if cl.Call.Args[0] != made {
+							okSame = false
+						}
+						continue
+					}
 					if c.Path(cl.Call.Args[0], nil) != c.Path(jose, nil) && !strings.HasSuffix(c.Path(cl.Call.Args[0], nil), ".joseHeaders") {
 						okSame = false
 					}
@@ -665,6 +724,26 @@ func runC16(c *Ctx) {
 			okKey = true
 		}
 	}
+	// (or by an unexported helper that is handed the curve and the two numbers)
+	if !okKey {
+		forEachInstr(us, func(in ssa.Instruction) {
+			cl, isC := in.(*ssa.Call)
+			if !isC {
+				return
+			}
+			g := cl.Call.StaticCallee()
+			if g == nil || !inModule(g) || g.Blocks == nil || pkgPathOf(g) != pkgPathOf(us) || g.Object() == nil || g.Object().Exported() {
+				return
+			}
+			genv := c.calleeEnv(&cl.Call, g, nil)
+			for _, a := range allocsOf(g, c.NamedTypeIn("crypto/ecdsa", "PublicKey")) {
+				ft := c.fieldTable(a, genv)
+				if len(ft["Curve"]) == 1 && ft["Curve"][0] == "github.com/btcsuite/btcd/btcec/v2.S256()" && len(ft["X"]) == 1 && strings.Contains(ft["X"][0], "$0.X") && len(ft["Y"]) == 1 && strings.Contains(ft["Y"][0], "$0.Y") {
+					okKey = true
+				}
+			}
+		})
+	}
 	c.Check("C16.G1", "unmarshal:key-from-checked-coordinates", okKey, us.Pos(), "the public key is built from the checked X, Y on S256")
 	// … and nothing else in the module builds an elliptic-curve public key from its parts: every reader of a JWK goes
 	// through the checked one (a second, "direct" decoder of the coordinates has its own idea of the width rule)
@@ -783,6 +862,53 @@ func runC16(c *Ctx) {
 			})
 		}
 		c.Check("C16.G1", "jwsutil:handed-keys-not-written", n >= 10 && len(bad) == 0, 0, fmt.Sprintf("%d functions of jwsutil: none stores into a jws.JWK it was handed", n), bad...)
+	}
+	// … and it is read as it was handed: the text the strict reader gets is json.Marshal of the caller's key itself, not
+	// of a copy with a member set differently (a relabelled curve makes a key of an unsupported type verify)
+	{
+		var bad []string
+		n := 0
+		for _, f := range c.Funcs {
+			if pkgPathOf(f) != modPkg+"jwsutil" || f.Blocks == nil {
+				continue
+			}
+			forEachInstr(f, func(in ssa.Instruction) {
+				cl, ok := in.(*ssa.Call)
+				if !ok || cl.Call.StaticCallee() == nil || cl.Call.StaticCallee().String() != "encoding/json.Marshal" {
+					return
+				}
+				v := cl.Call.Args[0]
+				if mi, isMI := v.(*ssa.MakeInterface); isMI {
+					v = mi.X
+				}
+				if typeShort(derefT(v.Type())) != "jws.JWK" {
+					return
+				}
+				n++
+				// (the key itself, or a copy that no member is stored into)
+				written := false
+				for w := range backSlice(v) {
+					al, isA := w.(*ssa.Alloc)
+					if !isA || al.Referrers() == nil || typeShort(derefT(al.Type())) != "jws.JWK" {
+						continue
+					}
+					for _, r := range *al.Referrers() {
+						if fa, isFA := r.(*ssa.FieldAddr); isFA && fa.Referrers() != nil {
+							for _, r2 := range *fa.Referrers() {
+								if st, isS := r2.(*ssa.Store); isS && st.Addr == ssa.Value(fa) {
+									written = true
+								}
+							}
+						}
+					}
+				}
+				if !written {
+					return
+				}
+				bad = append(bad, fmt.Sprintf("%s: %s marshals %s", c.pos(cl.Pos()), short(f.String()), c.Path(v, nil)))
+			})
+		}
+		c.Check("C16.G1", "jwsutil:handed-keys-read-as-handed", n >= 1 && len(bad) == 0, 0, fmt.Sprintf("%d json.Marshal of a jws.JWK in jwsutil, each of the key as it was handed", n), bad...)
 	}
 	// the encoder is chosen on the key's own labels: (*JWK).MarshalJSON hands the key to the secp256k1 encoder exactly
 	// when isSecp256k1(kty, crv) says so, and to go-jose otherwise (a choice "by exclusion" labels a key on any curve
@@ -997,6 +1123,20 @@ func runC16(c *Ctx) {
 						if u, isC := r.(*ssa.Call); isC {
 							if bi, isB := u.Call.Value.(*ssa.Builtin); isB && bi.Name() == "len" {
 								okUse = true
+								// (the length of the minimal form says how much padding is needed, or that the number is too
+								// wide — a test for the exact width, or for "too short", turns away numbers with leading zero bytes)
+								if u.Referrers() != nil {
+									for _, r2 := range *u.Referrers() {
+										bo, isBO := r2.(*ssa.BinOp)
+										if !isBO || !isCmp(bo.Op) {
+											continue
+										}
+										tooWide := (bo.Op == token.GTR && bo.X == ssa.Value(u)) || (bo.Op == token.LSS && bo.Y == ssa.Value(u))
+										if !tooWide {
+											okUse = false
+										}
+									}
+								}
 							}
 							if _, isPad := c.padSink(u, func(v ssa.Value) bool { return v == ssa.Value(cl) }); isPad {
 								okUse = true
@@ -1081,7 +1221,62 @@ func runC16(c *Ctx) {
 	} else {
 		c.Unresolved("C16.G3", "(*jwsutil.byteBuffer).UnmarshalJSON")
 	}
-	c.Min("C16.G3", 2)
+	// … and the readers of the buffer take the bytes as they are: the number and the text are made from the whole of
+	// data (a coordinate is a fixed-width big-endian number — trimming zero bytes at the end divides it by 256)
+	{
+		var got []string
+		okA := true
+		n := 0
+		// (a read of the data member of a byteBuffer, wherever it is written: in the type's own methods or inline)
+		isDataRead := func(v ssa.Value) bool {
+			switch x := v.(type) {
+			case *ssa.UnOp:
+				if fa, ok := x.X.(*ssa.FieldAddr); ok && x.Op == token.MUL {
+					st, _ := derefT(fa.X.Type()).Underlying().(*types.Struct)
+					return st != nil && typeShort(derefT(fa.X.Type())) == "jwsutil.byteBuffer" && st.Field(fa.Field).Name() == "data"
+				}
+			case *ssa.Field:
+				st, _ := x.X.Type().Underlying().(*types.Struct)
+				return st != nil && typeShort(x.X.Type()) == "jwsutil.byteBuffer" && st.Field(x.Field).Name() == "data"
+			}
+			return false
+		}
+		for _, f := range c.Funcs {
+			if pkgPathOf(f) != modPkg+"jwsutil" || f.Blocks == nil {
+				continue
+			}
+			forEachInstr(f, func(in ssa.Instruction) {
+				cl, isC := in.(*ssa.Call)
+				if !isC || cl.Call.StaticCallee() == nil {
+					return
+				}
+				var arg ssa.Value
+				switch cl.Call.StaticCallee().String() {
+				case "(*math/big.Int).SetBytes", "(*encoding/base64.Encoding).EncodeToString":
+					arg = cl.Call.Args[1]
+				default:
+					return
+				}
+				fromData := false
+				for v := range backSlice(arg) {
+					if isDataRead(v) {
+						fromData = true
+					}
+				}
+				if !fromData {
+					return
+				}
+				n++
+				got = append(got, f.Name()+": "+c.Path(arg, nil))
+				if !isDataRead(arg) {
+					okA = false
+				}
+			})
+		}
+		sort.Strings(got)
+		c.Check("C16.G3", "byteBuffer:readers-take-data-as-it-is", okA && n >= 1, 0, fmt.Sprintf("the number and the text of a byteBuffer are made from %v (expected the data member itself)", got))
+	}
+	c.Min("C16.G3", 3)
 
 	// ---- T1
 	gp := c.Fn("util/pubkey", "GetPublicKeyJWK")
